@@ -1,7 +1,6 @@
 (* C05 — the property's own vocabulary over the heap, written relationally (no fuel, independent of the traversal code):
-   reachability through entries / lazy-stack members, "p is in c's list of lock parents" (stored for a TensorDict, inherited
-   from the members for a lazy stack), hollow lazy stacks (no TensorDict underneath: nothing stores their parents), the
-   structure snapshot of a tree, and the lock-graph invariant. *)
+   reachability through entries / lazy-stack members, "p is in c's list of lock parents" (recorded on the node, or inherited
+   from the members for a lazy stack), the structure snapshot of a tree, and the lock-graph invariant. *)
 From Coq Require Import List String Bool Arith PeanoNat.
 Import ListNotations.
 From TD Require Import Model.C05_Heap Model.C05_Lock.
@@ -13,15 +12,10 @@ Inductive Reach (h : heap) : nat -> nat -> Prop :=
 | Reach_refl n : Reach h n n
 | Reach_step n c m : child h n c -> Reach h c m -> Reach h n m.
 
-(* p is among the lock parents of c (before the `is not self` filtering of lazy stacks) *)
+(* p is among the lock parents of c: recorded on c itself, or (lazy stack) inherited from a member *)
 Inductive has_parent (h : heap) : nat -> nat -> Prop :=
-| HP_td c nd p : lookup h c = Some nd -> nk nd = KTd -> In p (pars nd) -> has_parent h c p
+| HP_own c nd p : lookup h c = Some nd -> In p (pars nd) -> has_parent h c p
 | HP_lazy c nd m p : lookup h c = Some nd -> nk nd = KLazy -> In m (node_children nd) -> has_parent h m p -> has_parent h c p.
-
-(* a lazy stack with no TensorDict underneath (no members, or only hollow members): its parent list is empty whatever happens *)
-Inductive hollow (h : heap) : nat -> Prop :=
-| Hollow_none c : lookup h c = None -> hollow h c
-| Hollow_lazy c nd : lookup h c = Some nd -> nk nd = KLazy -> (forall m, In m (node_children nd) -> hollow h m) -> hollow h c.
 
 (* all paths below n are shorter than d (what a successful fuelled traversal witnesses; excludes cycles) *)
 Fixpoint depth_lt (h : heap) (d : nat) (n : nat) : Prop :=
@@ -31,11 +25,10 @@ Fixpoint depth_lt (h : heap) (d : nat) (n : nat) : Prop :=
   end.
 
 (* ---- the lock-graph invariant -------------------------------------------------------------------------------------- *)
-(* I1: below a live node whose flag is True, every child collection is flagged True and lists that node among its lock parents
-       -- unless the node became locked through _memmap_ (which writes the flag without building the graph: D7) *)
+(* I1: below a live node whose flag is True, every child collection is flagged True and lists that node among its lock parents *)
 Definition closed_at (s : st) (p : nat) : Prop :=
   forall nd c, lookup (hp s) p = Some nd -> In c (node_children nd) ->
-    mm nd = true \/ (flag_true (hp s) c = true /\ has_parent (hp s) c p).
+    flag_true (hp s) c = true /\ has_parent (hp s) c p.
 
 Definition I1 (s : st) : Prop := forall p, flag_true (hp s) p = true -> live s p = true -> closed_at s p.
 (* I0: a live object keeps its children alive *)
@@ -45,16 +38,8 @@ Definition closed_heap (s : st) : Prop :=
   (forall p c, child (hp s) p c -> lookup (hp s) c <> None) /\
   (forall n, lookup (hp s) n <> None -> n < nxt s) /\
   (forall d, In d (dead s) -> d < nxt s).
-Definition no_hollow (s : st) : Prop := forall n, lookup (hp s) n <> None -> ~ hollow (hp s) n.
 
-Record Inv (s : st) : Prop := mkInv { inv_I1 : I1 s; inv_I0 : I0 s; inv_closed : closed_heap s; inv_nh : no_hollow s }.
-
-(* calls outside the modelled domain: a lazy stack created with no members is hollow (D56: it can be unlocked alone) *)
-Definition in_scope (o : op) : Prop :=
-  match o with
-  | ONewLazy ms => ms <> []
-  | _ => True
-  end.
+Record Inv (s : st) : Prop := mkInv { inv_I1 : I1 s; inv_I0 : I0 s; inv_closed : closed_heap s }.
 
 (* ---- what "the tree of r is as it was" means ------------------------------------------------------------------------ *)
 Definition same_node_structure (h h' : heap) (n : nat) : Prop :=
@@ -68,11 +53,10 @@ Definition same_node_structure (h h' : heap) (n : nat) : Prop :=
 Definition tree_unchanged (h h' : heap) (r : nat) : Prop := forall n, Reach h r n -> same_node_structure h h' n.
 Definition tree_locked (h : heap) (r : nat) : Prop := forall n, Reach h r n -> flag_true h n = true.
 
-(* structural (entry-changing) calls and their guard class *)
+(* the documented exceptions of the property: storage conversions that rebind leaves / add the entry they are given *)
 Definition unguarded (o : op) : Prop :=
   match o with
-  | OExclude _ _ => fixed_D8 = false                     (* D8 *)
-  | OMakeMemmap _ _ => True                              (* documented exception *)
-  | OMemmap _ => True                                    (* documented storage conversion: leaves are rebound *)
+  | OMakeMemmap _ _ => True
+  | OMemmap _ => True
   | _ => False
   end.
